@@ -897,6 +897,24 @@ pub mod verif {
         let mathml = add_ids(mathml);
         return Ok(mml_to_string(&mathml));
     }
+
+    /// parse, trim and run one stage of canonicalization ("parse_rows": the mrow parser alone; "clean": validation and clean-up alone; "trim": nothing)
+    pub fn canonicalize_stage(mathml_str: &str, stage: &str) -> Result<String> {
+        crate::speech::SPEECH_RULES.with(|rules| rules.borrow_mut().read_files())?;
+        let package = match parser::parse(mathml_str) {
+            Ok(package) => package,
+            Err(e) => bail!("Invalid MathML input: {}", e),
+        };
+        let mathml = get_element(&package);
+        trim_element(&mathml);
+        let mathml = match stage {
+            "parse_rows" => crate::canonicalize::verif::parse_rows(mathml)?,
+            "clean" => crate::canonicalize::verif::clean_only(mathml)?,
+            "trim" => mathml,
+            _ => bail!("unknown stage {}", stage),
+        };
+        return Ok(mml_to_string(&mathml));
+    }
 }
 
 #[cfg(test)]
